@@ -8,6 +8,9 @@ CONSTANTS
   MaxMutations = 1
   CopyRef = TRUE
   CopyOnHit = TRUE
+  Qed = FALSE
+  TauTok = 100
+  TauBelow = 2
   CopyOnStore = FALSE
 INIT Init
 NEXT Next
